@@ -33,11 +33,11 @@ type c17CB struct {
 }
 
 type c17Transport interface {
-	feed(b []byte)                  // peer -> client bytes
-	step()                          // one unit of progress (pump one deferred completion / one PollOne + drain)
-	hold(on bool)                   // make the transport not writable / writable again
-	wire() []byte                   // everything the peer received so far
-	idle() bool                     // nothing left to do without new events
+	feed(b []byte) // peer -> client bytes
+	step()         // one unit of progress (pump one deferred completion / one PollOne + drain)
+	hold(on bool)  // make the transport not writable / writable again
+	wire() []byte  // everything the peer received so far
+	idle() bool    // nothing left to do without new events
 	real() bool
 }
 
@@ -171,9 +171,10 @@ func runC17(c *vf.Case) {
 		cbs = append(cbs, cb)
 		return cb
 	}
-	var readCB, writeCB *c17CB // in flight
-	var appFrames []c16Expect  // application frames in submission order
-	var pongs [][]byte         // payloads of pings received while active, in arrival order
+	var readCB, writeCB, closeCB *c17CB // in flight
+	okWritesDone := 0
+	var appFrames []c16Expect // application frames in submission order
+	var pongs [][]byte        // payloads of pings received while active, in arrival order
 	closeSent, peerClosed, held := false, false, false
 	quiescing := false
 	overlaps, ctlWhileWrite := 0, 0
@@ -182,12 +183,16 @@ func runC17(c *vf.Case) {
 	closeCodeSent := uint16(0)
 
 	var armRead func()
-	onFrame := func(err error, f websocket.Frame) {
-		readCB.calls++
-		readCB.err = err
-		cur := readCB
-		readCB = nil
+	onFrame := func(cur *c17CB, err error, f websocket.Frame) {
+		cur.calls++
+		cur.err = err
+		if readCB == cur {
+			readCB = nil
+		}
 		c.Logf("    <- %s completes err=%v (call#%d)", cur.what, err, cur.calls)
+		if cur.calls > 1 {
+			return // reported at the end as invoked twice
+		}
 		if err == nil && len(f) >= 2 {
 			switch f.Opcode() {
 			case websocket.OpcodePing:
@@ -214,8 +219,9 @@ func runC17(c *vf.Case) {
 		}
 		if r.Bool() {
 			readCB = newCB("AsyncNextFrame")
+			cur := readCB
 			c.Logf("  AsyncNextFrame (write in flight: %v)", writeCB != nil)
-			s.AsyncNextFrame(onFrame)
+			s.AsyncNextFrame(func(err error, f websocket.Frame) { onFrame(cur, err, f) })
 		} else {
 			readCB = newCB("AsyncNextMessage")
 			cur := readCB
@@ -245,11 +251,40 @@ func runC17(c *vf.Case) {
 		}
 	}
 	startWrite := func() {
-		if writeCB != nil || closeSent || peerClosed {
+		if closeSent || peerClosed {
+			return
+		}
+		closeOnly := writeCB != nil // an application write is in flight: only AsyncClose may join it
+		if closeOnly && !r.Chance(1, 4) {
 			return
 		}
 		if readCB != nil {
 			overlaps++
+		}
+		// wireCheck: when a write-type callback reports success its frame must already have been handed to the
+		// transport (on the scripted transport: be in Written; on the real socket: be readable at the peer)
+		wireCheck := func(cb *c17CB, isApp, isClose bool) {
+			if x, ok := tr.(*c17R); ok {
+				d, _, _ := rawpeer.Drain(x.peer, 1<<24)
+				x.got = append(x.got, d...)
+			}
+			frames, _, _ := wsref.ParseAll(tr.wire(), -1)
+			apps, closes := 0, 0
+			for _, f := range frames {
+				switch f.Opcode {
+				case wsref.OpClose:
+					closes++
+				case wsref.OpPong, wsref.OpPing:
+				default:
+					apps++
+				}
+			}
+			if isApp && apps < okWritesDone {
+				c.Failf("write-callback-success-before-frame-written/"+strings.SplitN(cb.what, "(", 2)[0], "%s: callback reported success but only %d of the %d successfully completed application frames have reached the transport", cb.what, apps, okWritesDone)
+			}
+			if isClose && closes == 0 {
+				c.Failf("write-callback-success-before-frame-written/AsyncClose", "AsyncClose: callback reported success but no Close frame has reached the transport")
+			}
 		}
 		done := func(cb *c17CB) func(error) {
 			return func(err error) {
@@ -258,10 +293,29 @@ func runC17(c *vf.Case) {
 				if writeCB == cb {
 					writeCB = nil
 				}
+				if closeCB == cb {
+					closeCB = nil
+				}
 				c.Logf("    <- %s completes err=%v (call#%d)", cb.what, err, cb.calls)
+				if err == nil && cb.calls == 1 {
+					isApp := strings.HasPrefix(cb.what, "AsyncWrite")
+					isClose := cb.what == "AsyncClose"
+					if isApp {
+						okWritesDone++
+					}
+
+					if isApp || isClose {
+						wireCheck(cb, isApp, isClose)
+					}
+				}
 			}
 		}
-		switch k := r.Intn(10); {
+		k := r.Intn(10)
+		if closeOnly {
+			k = 9
+			overlaps++
+		}
+		switch {
 		case k <= 5:
 			payload := asciiBytes(r, []int{0, 1, 50, 125, 126, 900}[r.Intn(6)])
 			writeCB = newCB(fmt.Sprintf("AsyncWrite(%d)", len(payload)))
@@ -284,11 +338,11 @@ func runC17(c *vf.Case) {
 			s.AsyncFlush(done(writeCB))
 			shape.WriteString("F")
 		default:
-			writeCB = newCB("AsyncClose")
+			closeCB = newCB("AsyncClose")
 			closeSent = true
 			closeCodeSent = 1000
-			c.Logf("  AsyncClose (read in flight: %v)", readCB != nil)
-			s.AsyncClose(websocket.CloseNormal, "bye", done(writeCB))
+			c.Logf("  AsyncClose (read in flight: %v, write in flight: %v)", readCB != nil, writeCB != nil)
+			s.AsyncClose(websocket.CloseNormal, "bye", done(closeCB))
 			shape.WriteString("c")
 		}
 	}
@@ -338,7 +392,7 @@ func runC17(c *vf.Case) {
 		// an armed read needs something to read: the peer sends one more message
 		tr.feed(wsref.Frame{Fin: true, Opcode: wsref.OpText, Payload: []byte("last")}.Encode())
 	}
-	for i := 0; i < 3000 && (writeCB != nil || readCB != nil || !tr.idle()); i++ {
+	for i := 0; i < 3000 && (writeCB != nil || closeCB != nil || readCB != nil || !tr.idle()); i++ {
 		tr.step()
 		if tr.real() && i > 50 {
 			time.Sleep(100 * time.Microsecond) // loopback TCP is not instantaneous (delayed ACKs, softirq scheduling)
@@ -351,7 +405,7 @@ func runC17(c *vf.Case) {
 		tr.step()
 	}
 	// owed control replies that no read has flushed yet are flushed explicitly before the wire is judged
-	if !c.Failed() && writeCB == nil {
+	if !c.Failed() && writeCB == nil && closeCB == nil {
 		fl := newCB("AsyncFlush")
 		s.AsyncFlush(func(err error) { fl.calls++; fl.err = err })
 		for i := 0; i < 3000 && fl.calls == 0; i++ {
@@ -446,7 +500,8 @@ func init() {
 		Rule: "cases = scripts of 6-40 steps: arm a read (AsyncNextFrame / AsyncNextMessage, re-armed from its own callback 3 times out of 4), start a write (AsyncWrite, AsyncWriteFrame, AsyncFlush, AsyncClose; one application write at a time), peer sends data / ping / close, the transport becomes not writable / writable again, one unit of progress (one deferred completion on the scripted transport; PollOne + peer drain on the real socket); 3 of 4 cases on the scripted transport, 1 of 4 on the real adapter after a real handshake; every script ends with a bounded quiescence; " +
 			"non-trivial = a read and a write were in flight together at least once; distinct = (variant, overlaps, control frames handled during a write, shape)",
 		Assumptions: []string{
-			"one application read and one application write in flight, as the statement says; automatic Pong/Close replies are flushed by the read path concurrently",
+			"one application read and one application write in flight, as the statement says, plus an AsyncClose that may join them; automatic Pong/Close replies are flushed by the read path concurrently",
+			"when a write-type callback reports success its frame must already have reached the transport (scripted transport) / the peer's socket (real adapter)",
 			"only callbacks of operations started while the transport is healthy are owed; after the peer's Close outstanding operations may complete with an error - still exactly once",
 			"application messages stay <= 900 bytes on the real adapter (net.Conn.Write blocks the loop when the socket is full)",
 			"the relative order of Pongs and application frames is C08's subject; here each sequence must be complete and in its own order",
